@@ -22,6 +22,11 @@ pub(crate) use me_code::*;
 pub fn get_message(squitter: &str) -> Option<Vec<u32>> {
     clean_squitter(squitter)
         .filter(|message| matches!(message.len(), 14 | 28))
+        .filter(|message| match crate::get_downlink_format(message) {
+            Some(0..=15) => message.len() == 14,
+            Some(_) => message.len() == 28,
+            None => false,
+        })
         .filter(|message| reminder(message) == 0)
 }
 
